@@ -79,6 +79,15 @@ Definition min_isect (tol : T) (idx : nat) (isects : list (nat * T * list T)) : 
 Definition has_isect (idx : nat) (isects : list (nat * T * list T)) : bool :=
   existsb (fun is => Nat.eqb (fst (fst is)) idx) isects.
 
+(* a candidate triangle survives when its centre of mass (uv) is not flagged inside by the trims *)
+Definition tri_kept (trims : list trimc) (s : list vobj) (t : nat * tri) : bool :=
+  let '(_, (x, y, z)) := t in
+  let three := ofnat K 3 in
+  let c := [((o0 K + vu (vget s x)) + vu (vget s y) + vu (vget s z)) / three;
+            ((o0 K + vv (vget s x)) + vv (vget s y) + vv (vget s z)) / three] in
+  let '(ins, _, _) := flag_update (false, false, false) trims (fun trim => wn_poly K c (tpts trim)) in
+  negb ins.
+
 (* surface_trim_tessellate.  tol = 10e-8, tols = tol**2, rtol = default tolerance of ray.intersect *)
 Definition surface_trim_tessellate (rtol tol tols : T) (trims : list trimc)
     (s : list vobj) (corners : list nat) (vidx tidx : nat) : list vobj * list nat * list (nat * tri) :=
@@ -108,13 +117,7 @@ Definition surface_trim_tessellate (rtol tol tols : T) (trims : list trimc)
     (seq 0 4) (s1, [], 0) in
   let tris := number_from tidx (polygon_triangulate tvs) in
   (* keep the triangles whose centre of mass (in the parametric plane) is not trimmed *)
-  let three := ofnat K 3 in
-  let keep := filter (fun t =>
-      let '(_, (x, y, z)) := t in
-      let c := [((o0 K + vu (vget s2 x)) + vu (vget s2 y) + vu (vget s2 z)) / three;
-                ((o0 K + vv (vget s2 x)) + vv (vget s2 y) + vv (vget s2 z)) / three] in
-      let '(ins, _, _) := flag_update (false, false, false) trims (fun trim => wn_poly K c (tpts trim)) in
-      negb ins) tris in
+  let keep := filter (tri_kept trims s2) tris in
   (s2, tvs, keep).
 
 (* make_triangle_mesh with tessellate_func = surface_trim_tessellate (TrimTessellate).
